@@ -37,7 +37,7 @@ type c02Case struct {
 type c02FreeObs struct {
 	Gets  []string `json:"gets"` // hex
 	Final string   `json:"final"`
-	Bad   bool     `json:"bad"`
+	Hang  bool     `json:"hang"` // some GetDataType (or setter) did not return within the deadline
 }
 
 type c02 struct{}
@@ -258,16 +258,18 @@ func c02RunFree(c c02Case) c02FreeObs {
 	var o c02FreeObs
 	select {
 	case <-done:
-	case <-time.After(30 * time.Second):
-		o.Bad = true
+	case <-time.After(12 * time.Second):
+		// hang: cancel the pipe (GetDataType polls the context) and give up
+		o.Hang = true
 		s.ForceClose()
 		select {
 		case <-done:
-		case <-time.After(5 * time.Second):
+		case <-time.After(3 * time.Second):
 		}
 	}
-	o.Gets = gets
-	o.Final = strmHex(s.VerifSnapshot().DataType)
+	o.Gets = append([]string{}, gets...)
+	sn, _ := strmSnapOf(s)
+	o.Final = sn.DT
 	return o
 }
 
@@ -294,7 +296,7 @@ func (c02) Run(raw json.RawMessage) Result {
 		for i, g := range o.Gets {
 			gets[i] = coqlit.Bytes(strmUnhex(g))
 		}
-		coq := coqlit.App("Free", coqlit.List(sets), coqlit.List(gets), coqlit.Bytes(strmUnhex(o.Final)), coqlit.Bool(o.Bad))
+		coq := coqlit.App("Free", coqlit.List(sets), coqlit.List(gets), coqlit.Bytes(strmUnhex(o.Final)), coqlit.Bool(o.Hang))
 		return Result{Obs: o, Coq: coq, Nontrivial: nvalid > 1 || len(c.Sets) > 1, Class: "free"}
 	}
 	o := strmRunCtl(c.strmCtlCase)
@@ -342,6 +344,9 @@ func (c02) Shrink(raw json.RawMessage) []any {
 			n := c
 			n.NGet--
 			out = append(out, n)
+		}
+		if len(out) > 6 { // a hanging candidate costs a whole deadline
+			out = out[:6]
 		}
 		return out
 	}
